@@ -556,3 +556,57 @@ def replay_closure_rooted(items):
 
 def replay_closure_parent(items):
     return _old_parent(items) + _observe_results({"parent", "plain"})
+
+
+# ---------------------------------------------------------------------------------------------
+# spans (C17): expressions whose build errors / captures have spans with a known, rule-derived value
+# ---------------------------------------------------------------------------------------------
+
+SPAN_ERRORS = [
+    # (expression, expected spans of locations()[..] or None when only sliceability is demanded)
+    ("a//b", [(1, 2)]), ("金//é", [(3, 2)]), ("a/**/**/b", None), ("金\\", None), ("(?i)金\\", None),
+    ("é\\", None), ("a{", None), ("金{金", None), ("金/{/b,c}", [(4, 6)]), ("<*>", [(0, 3)]),
+    ("金<*>", [(3, 3)]), ("a{**}b", [(1, 4)]), ("<金:2,1>", [(0, 9)]), ("\U0001F600\\", None), ("\\", None),
+    ("a/{b,/金}", None), ("é/<a/:2>/é", None), ("{金,**}", [(0, 8)]),
+]
+SPAN_CAPTURES = [
+    ("**/{a*,b*}/$", [(0, 3), (3, 7), (11, 1)], None),
+    ("/**/a*", [(0, 4), (5, 1)], ("**/a*", [(0, 3), (4, 1)])),
+    ("金/**/(?i)*.é", [(3, 4), (7, 5)], ("**/(?i)*.é", [(0, 3), (3, 5)])),
+    ("é/金/*[a]", [(7, 1), (8, 3)], ("*[a]", [(0, 1), (1, 3)])),
+    ("/**", [(0, 3)], ("**", [(0, 2)])),
+]
+
+
+def replay_spans(items):
+    from core import probe
+    out = []
+    rows = probe([{"op": "spans", "e": e} for e, _ in SPAN_ERRORS])
+    for (e, want), row in zip(SPAN_ERRORS, rows):
+        if not row or row.get("ok") or row.get("panic"):
+            continue
+        got = [(l["start"], l["len"]) for l in row["locations"]]
+        unsliceable = [l for l in row["locations"] if l["slice"] is None]
+        if unsliceable:
+            l = unsliceable[0]
+            out.append(({"error-span-not-sliceable"},
+                        {"short": {"expression": e, "span": [l["start"], l["len"]], "label": l["label"],
+                                   "scenario": "Glob::new(e).unwrap_err().locations(); e.get(start..)?.get(..len) is None (the documented slicing would panic)"}}))
+        elif want is not None and got != want:
+            out.append(({"error-span-wrong"}, {"short": {"expression": e, "spans": got, "expected": want}}))
+    rows = probe([{"op": "spans", "e": e} for e, _, _ in SPAN_CAPTURES])
+    for (e, want, post), row in zip(SPAN_CAPTURES, rows):
+        if not row or not row.get("ok"):
+            continue
+        got = [(c["start"], c["len"]) for c in row["caps"]]
+        if got != want:
+            out.append(({"capture-span-differs-from-subexpression"},
+                        {"short": {"expression": e, "reported": got, "sub_expressions": want}}))
+        if post is not None:
+            p = row.get("post") or {}
+            gotp = [(c["start"], c["len"]) for c in p.get("caps", [])]
+            if p.get("text") != post[0] or gotp != post[1]:
+                out.append(({"postfix-capture-spans-wrong"},
+                            {"short": {"expression": e, "postfix": p.get("text"), "reported": gotp,
+                                       "expected": list(post)}}))
+    return out
